@@ -21,7 +21,8 @@ checked, and prints it back with every branch braced:
     operation of an if-condition / return / initialiser / expression statement (reference parameters bound to plain
     variables, value parameters unchanged by the helper, helper locals renamed on a clash);
   2 parameters and locals that play a modelled role are renamed to the model's name (role = position in the
-    signature or the initialiser, e.g. `char X = value[0]` is `quote`, `std::string X; getline(in, X); value = value
+    signature or the initialiser; the two cursors of split() and the lower-casing functor of Parser<bool> may have
+    any name; e.g. `char X = value[0]` is `quote`, `std::string X; getline(in, X); value = value
     + … + X` is `l`, `X = split(str)` is `sub`, `std::istringstream X(str)` is `s`);
   3 structure: `return c ? a : b` -> if/return; `if (c) jump; else r` -> `if (c) jump; r`; `x == npos` tests turned
     into `x != npos` with swapped branches, also as a guard clause without else; `if (c) continue; rest` at the end
@@ -32,6 +33,14 @@ checked, and prints it back with every branch braced:
     continue/break, the refresh is the LAST statement of the body) -> E written for T; `x = E; x = G[x]` -> `x =
     G[E]`; a local initialised once from a side-effect-free expression and never changed, whose operands are not
     changed up to its last use, is written out (names of the model's vocabulary are kept).
+  5 helpers that are a single `return <side-effect-free expression>` are inlined at every call with side-effect-free
+    arguments (also in loop conditions); `static_cast<T>(e)` = `T(e)`; `bound > i` = `i < bound` in a for-header; the
+    counter of an index loop is called `i`;
+  6 the conditions of the quote loop, the overwrite test, the option test of readOptions and the "missing" test of
+    readNamedOptions are compared as BOOLEAN FUNCTIONS of their atoms (truth tables: De Morgan, double negation,
+    commuted operands, `a != b` = `!(a == b)`, `x > y` = `y < x`, `e.size()==0` = `e.empty()`), with short-circuit
+    GUARDS kept: `rtrim(value).back()` may only be evaluated after `rtrim(value).empty()` was false, `argv[i][1]`
+    only after `argv[i][0] == '-'` was true (commuting those operands is not harmless and stays loud).
 Anything the rules or the patterns below do not recognise raises TranslateError (loud failure)."""
 import os
 import re
@@ -561,6 +570,7 @@ def canon_tokens(text):
     p = re.sub(r"\bor\b", "||", p)
     p = re.sub(r"\bthis\s*->\s*", "", p)
     p = re.sub(r"\bnullptr\b", "NULL", p)
+    p = re.sub(r"\bstatic_cast\s*<\s*([\w:]+(?:\s+[\w:]+)*)\s*>\s*\(", lambda m: re.sub(r"\s+", " ", m.group(1)) + "(" if " " not in m.group(1).strip() else m.group(0), p)
     p = re.sub(r"^\s*const\s+(?=[\w:])", "", p)                      # `const T x = …` as a local declaration
     p = re.sub(r"^(\s*)(static\s+)const\s+(?=[\w:])", r"\1\2", p)
     p = _commute(p)
@@ -583,6 +593,177 @@ def canon_tokens(text):
     p = p_cur[0]
     p = re.sub(r"!\s*!\s*(" + ID + r"\s*\.\s*empty\s*\(\s*\))", r"\1", p)
     return restore(p, lits)
+
+
+
+# ---- conditions compared as Boolean functions of their atoms (De Morgan, double negation, commuted operands) ----
+def _atom(atom, lits):
+    a = re.sub(r"\s+", "", restore(atom, lits))
+    depth, cut = 0, None
+    for i, ch in enumerate(a):
+        if ch in "([{":
+            depth += 1
+        elif ch in ")]}":
+            depth -= 1
+        elif depth == 0 and a[i:i + 2] in ("==", "!=") and cut is None:
+            cut = i
+    if cut is not None:
+        l, op, r = a[:cut], a[cut:cut + 2], a[cut + 2:]
+        l, r = _strip_parens(l), _strip_parens(r)
+        at = None
+        for x, y in ((l, r), (r, l)):
+            if y in ('""', "std::string()") or (y == "0" and re.search(r"\.(size|length)\(\)$", x)):
+                at = ("atom", re.sub(r"\.(size|length)\(\)$", "", x) + ".empty()")
+        if at is None:
+            at = ("atom", "==".join(sorted([l, r])))
+        return at if op == "==" else ("not", at)
+    m = re.fullmatch(r"([\w\[\].]+)(<=|>=|<|>)([\w\[\].]+)", a)
+    if m:
+        l, op, r = m.groups()
+        return {"<": ("atom", l + "<" + r), ">": ("atom", r + "<" + l), "<=": ("not", ("atom", r + "<" + l)),
+                ">=": ("not", ("atom", l + "<" + r))}[op]
+    return ("atom", a)
+
+
+def bool_parse(e, what="condition"):
+    p, lits = protect(e)
+    pos = [0]
+
+    def ws():
+        while pos[0] < len(p) and p[pos[0]].isspace():
+            pos[0] += 1
+
+    def p_or():
+        l = p_and()
+        ws()
+        while p.startswith("||", pos[0]):
+            pos[0] += 2
+            l = ("or", l, p_and())
+            ws()
+        return l
+
+    def p_and():
+        l = p_not()
+        ws()
+        while p.startswith("&&", pos[0]):
+            pos[0] += 2
+            l = ("and", l, p_not())
+            ws()
+        return l
+
+    def p_not():
+        ws()
+        if p.startswith("!", pos[0]) and not p.startswith("!=", pos[0]):
+            pos[0] += 1
+            return ("not", p_not())
+        if p[pos[0]:pos[0] + 1] == "(":
+            q = _match(p, pos[0])
+            k = q + 1
+            while k < len(p) and p[k].isspace():
+                k += 1
+            if k >= len(p) or p.startswith("&&", k) or p.startswith("||", k) or p[k] == ")":
+                save = pos[0]
+                pos[0] += 1
+                inner = p_or()
+                ws()
+                if pos[0] == q:
+                    pos[0] = q + 1
+                    return inner
+                pos[0] = save
+        j = pos[0]
+        while j < len(p):
+            c = p[j]
+            if c in "([":
+                j = _match(p, j) + 1
+                continue
+            if c == ")" or p.startswith("&&", j) or p.startswith("||", j):
+                break
+            j += 1
+        atom = p[pos[0]:j].strip()
+        pos[0] = j
+        if not atom:
+            raise TranslateError("%s: cannot read %r" % (what, e))
+        return _atom(atom, lits)
+
+    t = p_or()
+    ws()
+    if pos[0] != len(p):
+        raise TranslateError("%s: cannot read %r" % (what, e))
+    return t
+
+
+def bool_atoms(t, acc=None):
+    acc = set() if acc is None else acc
+    if t[0] == "atom":
+        acc.add(t[1])
+    else:
+        for x in t[1:]:
+            bool_atoms(x, acc)
+    return acc
+
+
+def bool_eval(t, env):
+    if t[0] == "atom":
+        return env[t[1]]
+    if t[0] == "not":
+        return not bool_eval(t[1], env)
+    if t[0] == "and":
+        return bool_eval(t[1], env) and bool_eval(t[2], env)
+    return bool_eval(t[1], env) or bool_eval(t[2], env)
+
+
+def bool_same(t1, t2):
+    """same Boolean function of the atoms (no side effects in conditions the translator accepts: atoms are calls of
+    const observers / comparisons)"""
+    atoms = sorted(bool_atoms(t1) | bool_atoms(t2))
+    if len(atoms) > 8:
+        return False
+    for k in range(1 << len(atoms)):
+        env = {a: bool(k >> i & 1) for i, a in enumerate(atoms)}
+        if bool_eval(t1, env) != bool_eval(t2, env):
+            return False
+    return True
+
+
+def bool_eval_sc(t, env, trace):
+    """evaluation with the short-circuit rules of && and ||; trace = atoms in the order they are evaluated"""
+    if t[0] == "atom":
+        trace.append((t[1], env[t[1]]))
+        return env[t[1]]
+    if t[0] == "not":
+        return not bool_eval_sc(t[1], env, trace)
+    if t[0] == "and":
+        return bool_eval_sc(t[1], env, trace) and bool_eval_sc(t[2], env, trace)
+    return bool_eval_sc(t[1], env, trace) or bool_eval_sc(t[2], env, trace)
+
+
+def guards_hold(t, guards):
+    """guards = [(guard atom, value, guarded atom)]: whenever the guarded atom is evaluated, the guard atom has been
+    evaluated before with that value (operands of && / || may not be commuted when one protects the other)"""
+    atoms = sorted(bool_atoms(t))
+    for k in range(1 << len(atoms)):
+        env = {a: bool(k >> i & 1) for i, a in enumerate(atoms)}
+        trace = []
+        bool_eval_sc(t, env, trace)
+        for g, val, d in guards:
+            for idx, (a, _) in enumerate(trace):
+                if a == d and (g, val) not in trace[:idx]:
+                    return False
+    return True
+
+
+def cond_is(cond, expected, what="condition", guards=()):
+    t = bool_parse(cond, what)
+    gs = []
+    for g, val, d in guards:
+        ga, da = bool_parse(g, what), bool_parse(d, what)
+        # the expected sub-expressions are atoms, possibly negated
+        while ga[0] == "not":
+            ga, val = ga[1], not val
+        while da[0] == "not":
+            da = da[1]
+        gs.append((ga[1], val, da[1]))
+    return bool_same(t, bool_parse(expected, what)) and guards_hold(t, gs)
 
 
 # ---- rule 1: private helper functions are inlined at their call sites -----------------------------------------
@@ -613,6 +794,33 @@ def helper_shape(fn):
     if m:
         return [n["t"] for n in pre], m.group(1).strip()
     return [n["t"] for n in body], None
+
+
+def inline_pure_calls(text, pure_helpers):
+    """calls of helpers that consist of `return <side-effect-free expression>;` are replaced by that expression,
+    wherever they occur, when the arguments are side-effect free as well"""
+    for _ in range(8):
+        p, lits = protect(text)
+        hit = None
+        for m in re.finditer(r"(?<![\w.>:])(" + ID + r")\s*\(", p):
+            if m.group(1) in pure_helpers:
+                hit = m
+                break
+        if not hit:
+            return text
+        h = pure_helpers[hit.group(1)]
+        q = _match(p, hit.end() - 1)
+        args = [restore(a, lits) for a in split_args(p[hit.end():q])]
+        pars = param_names(h["params"])
+        if len(args) != len(pars) or any(pn is None for pn, _, _ in pars) or not all(is_pure(a) for a in args):
+            return text
+        e = h["ret"]
+        for idx, (pn, _, _) in enumerate(pars):
+            e = subst(e, pn, "\x02P%d\x02" % idx)
+        for idx, a in enumerate(args):
+            e = e.replace("\x02P%d\x02" % idx, paren(a))
+        text = restore(p[:hit.start(1)], lits) + "(" + e + ")" + restore(p[q + 1:], lits)
+    return text
 
 
 def inline_helpers(nodes, helpers, scope_text):
@@ -830,7 +1038,17 @@ def structure(nodes, loop_body=False):
         if k == "for":
             parts = _for_parts(n["c"])
             if parts:
+                mg = re.fullmatch(r"([\w.\[\]]+(?:\(\s*\w*\s*\))?)\s*(>=?)\s*(" + ID + r")", parts[1].strip())
+                if mg:   # `bound > i`  ==  `i < bound`
+                    parts[1] = "%s %s %s" % (mg.group(3), "<" if mg.group(2) == ">" else "<=", mg.group(1))
                 n["c"] = "%s; %s; %s" % (parts[0], parts[1], ", ".join(sorted(_canon_steps(parts[2]))) if parts[2] else "")
+                # the counter of an index loop is called `i`
+                mc = re.fullmatch(r"((?:[\w:]+\s+)+)(" + ID + r")\s*=\s*(\d+)", parts[0])
+                if mc and mc.group(2) != "i" and re.match(mc.group(2) + r"\s*<", parts[1]) and not _has_word([n], ["i"]):
+                    cn = mc.group(2)
+                    n["c"] = subst(n["c"], cn, "i")
+                    map_text(n["b"], lambda t: subst(t, cn, "i"))
+                    parts = _for_parts(n["c"])
                 # iterator loop over a named sequence == index loop, when the iterator is only dereferenced
                 mi = re.fullmatch(r"(?:auto|[\w:<>,\s]*iterator)\s+(" + ID + r")\s*=\s*(" + ID + r")\s*\.\s*c?begin\s*\(\s*\)", parts[0])
                 if mi:
@@ -967,14 +1185,17 @@ def dataflow(nodes, keep):
 
 # ---- rule 4: locals that play a modelled role get the model's name (alpha-renaming) --------------------------
 ROLES = [
-    ("readINITree", r"^\s*std::string\s+(?P<n>\w+)\s*;", "prefix"),
     ("readINITree", r"std::set\s*<\s*std::string\s*>\s+(?P<n>\w+)\s*;", "keysInFile"),
     ("readINITree", r"std::string\s+(?P<n>\w+)\s*;\s*(?:std::)?getline\s*\(\s*in\s*,\s*(?P=n)\s*\)\s*;\s*(?P=n)\s*=\s*ltrim\b", "line"),
+    ("readINITree", r"^\s*(?P<n>\w+)\s*=\s*(?:[lr]trim\s*\(\s*)+line\s*\.\s*substr\s*\(", "prefix"),
     ("readINITree", r"std::string\s+(?P<n>\w+)\s*=\s*prefix\s*\+", "key"),
     ("readINITree", r"std::string\s+(?P<n>\w+)\s*=\s*(?:[lr]trim\s*\(\s*)*line\s*\.\s*substr\s*\(", "value"),
     ("readINITree", r"char\s+(?P<n>\w+)\s*=\s*value\s*\[\s*0\s*\]\s*;", "quote"),
     ("readINITree", r"std::string\s+(?P<n>\w+)\s*;\s*(?:std::)?getline\s*\(\s*in\s*,\s*(?P=n)\s*\)\s*;\s*value\s*(?:=\s*value\s*\+|\+=)", "l"),
     ("readNamedOptions", r"std::string\s+(?P<n>\w+)\s*=\s*argv\s*\[\s*i\s*\]\s*;", "opt"),
+    ("readNamedOptions", r"(?:std::)?size_t\s+(?P<n>\w+)\s*=\s*opt\s*\.\s*find\s*\(", "pos"),
+    ("readNamedOptions", r"std::string\s+(?P<n>\w+)\s*=\s*opt\s*\.\s*substr\s*\(\s*\d+\s*,", "key"),
+    ("readNamedOptions", r"std::string\s+(?P<n>\w+)\s*=\s*opt\s*\.\s*substr\s*\(\s*(?:pos\s*\+\s*\d+|\d+\s*\+\s*pos)", "value"),
     ("parse", r"std::istringstream\s+(?P<n>\w+)\s*\(\s*str\s*\)\s*;", "s"),
     ("parseRange", r"std::istringstream\s+(?P<n>\w+)\s*\(\s*str\s*\)\s*;", "s"),
     ("parse", r"\bchar\s+(?P<n>\w+)\s*;\s*s\s*>>\s*(?P=n)\s*;", "dummy"),
@@ -1000,8 +1221,9 @@ def rename_in_tree(nodes, old, new, what):
     map_text(nodes, lambda t: subst(t, old, new))
 
 
-def normalise_body(fname, params, tree, helpers):
+def normalise_body(fname, params, tree, helpers, pure_helpers):
     map_text(tree, canon_tokens)
+    map_text(tree, lambda t: inline_pure_calls(t, {k: v for k, v in pure_helpers.items() if k != fname}))
     tree[:] = inline_helpers(tree, helpers, params + tree_text(tree))
     pn = param_names(params)
     want = PARAM_ROLES.get((fname, len(pn)))
@@ -1022,7 +1244,7 @@ def normalise_body(fname, params, tree, helpers):
     for fn, rx, canonical in ROLES:
         if fn != fname:
             continue
-        m = re.search(rx, tree_text(tree), flags=re.S)
+        m = re.search(rx, tree_text(tree), flags=re.S | re.M)
         if m:
             rename_in_tree(tree, m.group("n"), canonical, fname)
     tree[:] = structure(tree)
@@ -1080,13 +1302,24 @@ def normalise_sources(srcs):
                     helpers[name] = None      # overloaded: not inlined
                 else:
                     helpers[name] = {"params": s[po:pc + 1], "tree": tree}
-    helpers = {k: v for k, v in helpers.items() if v is not None and helper_shape(v) is not None}
+    helpers = {k: v for k, v in helpers.items() if v is not None}
+    pure_helpers = {}
+    for k, v in helpers.items():
+        try:
+            v["tree"] = dataflow(structure(v["tree"]), set())
+        except TranslateError:
+            pass
+        sh = helper_shape(v)
+        if sh and not sh[0] and sh[1] and is_pure(sh[1]) and not any(c in pure_helpers or c in helpers for c in
+                                                                      re.findall(r"(" + ID + r")\s*\(", sh[1])):
+            pure_helpers[k] = {"params": v["params"], "ret": sh[1]}
+    helpers = {k: v for k, v in helpers.items() if helper_shape(v) is not None and k not in pure_helpers}
     outs = []
     for s, fs in zip(srcs, found):
         out, last = [], 0
         for (o, c, name, po, pc) in fs:
             tree = parse_stmts(s, o + 1, c)
-            params, tree = normalise_body(name, s[po:pc + 1], tree, {k: v for k, v in helpers.items() if k != name})
+            params, tree = normalise_body(name, s[po:pc + 1], tree, {k: v for k, v in helpers.items() if k != name}, pure_helpers)
             out += [s[last:po], params, s[pc + 1:o + 1], "\n", unparse(tree), "\n"]
             last = c
         out.append(s[last:])
@@ -1259,12 +1492,14 @@ def translate(repo):
     trim_fn(cc, "ParameterTree", "ltrim", "find_first_not_of", "blankTreeLtrim")
     trim_fn(cc, "ParameterTree", "rtrim", "find_last_not_of", "blankTreeRtrim")
     (sb, _, _), = bodies(cc, r"\bParameterTree::split\s*\(", "ParameterTree::split")[:1]
-    m1, = need(r"front\s*=\s*s\s*\.\s*find_first_not_of\s*\(\s*(" + LIT + r")\s*,\s*back\s*\)", sb, "split: front = find_first_not_of", 1)
-    m2, = need(r"back\s*=\s*s\s*\.\s*find_first_of\s*\(\s*(" + LIT + r")\s*,\s*front\s*\)", sb, "split: back = find_first_of", 1)
-    A("/-- `ParameterTree::split`: `front = s.find_first_not_of(%s, back)` -/" % m1.group(1))
-    A("def blankSplitSkip : List Char := %s" % lean_chars(charset(m1.group(1), "split")))
-    A("/-- `ParameterTree::split`: `back = s.find_first_of(%s, front)` -/" % m2.group(1))
-    A("def blankSplitStop : List Char := %s" % lean_chars(charset(m2.group(1), "split")))
+    m1, = need(r"(?P<f>\w+)\s*=\s*s\s*\.\s*find_first_not_of\s*\(\s*(" + LIT + r")\s*,\s*(?P<b>\w+)\s*\)", sb, "split: front = find_first_not_of", 1)
+    m2, = need(r"(?P<b>\w+)\s*=\s*s\s*\.\s*find_first_of\s*\(\s*(" + LIT + r")\s*,\s*(?P<f>\w+)\s*\)", sb, "split: back = find_first_of", 1)
+    if m1.group("f") != m2.group("f") or m1.group("b") != m2.group("b") or m1.group("f") == m1.group("b") or m1.start() > m2.start():
+        raise TranslateError("split: the two searches do not alternate between the same two cursors")
+    A("/-- `ParameterTree::split`: `front = s.find_first_not_of(%s, back)` -/" % m1.group(2))
+    A("def blankSplitSkip : List Char := %s" % lean_chars(charset(m1.group(2), "split")))
+    A("/-- `ParameterTree::split`: `back = s.find_first_of(%s, front)` -/" % m2.group(2))
+    A("def blankSplitStop : List Char := %s" % lean_chars(charset(m2.group(2), "split")))
     A("")
 
     # ---- 2. dotted-key descent ----------------------------------------------------------------------------
@@ -1452,8 +1687,8 @@ def translate(repo):
     if not wm:
         raise TranslateError("quote continuation loop not found")
     wcond, wend = if_condition(dflt.replace("while", "if   ", 1) if False else dflt[:wm.start()] + "if   " + dflt[wm.start() + 5:], wm.start(), "quote loop")
-    wc = re.sub(r"\s+", "", wcond)
-    if wc not in ("rtrim(value).empty()||rtrim(value).back()!=quote", "rtrim(value).empty()||quote!=rtrim(value).back()"):
+    if not cond_is(wcond, "rtrim(value).empty() || rtrim(value).back() != quote", "quote loop",
+                   guards=[("rtrim(value).empty()", False, "rtrim(value).back() != quote")]):
         raise TranslateError("quote loop condition changed: %s" % wcond.strip())
     A("/-- `while (%s)`: the loop runs until the right-trimmed value ends with the quote -/" % re.sub(r"\s+", " ", wcond.strip()))
     A("def iniQuoteLoopUntilTrimmedEndsWithQuote : Bool := true")
@@ -1462,7 +1697,8 @@ def translate(repo):
         raise TranslateError("quote loop: `value = value + \"\\n\" + l` not found")
     A("/-- continuation lines are joined with %s -/" % jm.group(1))
     A("def iniContinuationJoin : List Char := %s" % lean_chars(lit_bytes(jm.group(1), "continuation join")))
-    if not (re.search(r"value\s*=\s*value\s*\+\s*quote\s*;", dflt) or re.search(r"value\s*\+=\s*quote\s*;", dflt)):
+    if not (re.search(r"value\s*=\s*value\s*\+\s*quote\s*;", dflt) or re.search(r"value\s*\+=\s*quote\s*;", dflt)
+            or re.search(r"value\s*\.\s*push_back\s*\(\s*quote\s*\)\s*;", dflt)):
         raise TranslateError("quote loop: `value = value + quote` at end of input not found")
     # duplicate / overwrite test
     dm = re.search(r"if\s*\(\s*keysInFile\s*\.\s*count\s*\(\s*key\s*\)\s*!=\s*0\s*\)|if\s*\(\s*keysInFile\s*\.\s*count\s*\(\s*key\s*\)\s*>\s*0\s*\)|"
@@ -1476,10 +1712,15 @@ def translate(repo):
         raise TranslateError("assignment: the duplicate test does not throw")
     A("/-- a key already in `keysInFile` throws this exception -/")
     A("def iniDuplicateError : String := \"%s\"" % tm.group(1))
-    om = re.search(r"if\s*\(\s*overwrite\s*(\|\||or)\s*(!|not)\s*pt\s*\.\s*hasKey\s*\(\s*key\s*\)\s*\)\s*\{?\s*pt\s*\[\s*key\s*\]\s*=\s*value\s*;\s*\}?\s*"
-                   r"keysInFile\s*\.\s*insert\s*\(\s*key\s*\)\s*;", rest) or \
-        re.search(r"if\s*\(\s*(!|not)\s*pt\s*\.\s*hasKey\s*\(\s*key\s*\)\s*(\|\||or)\s*overwrite\s*\)\s*\{?\s*pt\s*\[\s*key\s*\]\s*=\s*value\s*;\s*\}?\s*"
-                  r"keysInFile\s*\.\s*insert\s*\(\s*key\s*\)\s*;", rest)
+    om = False
+    for im_ in re.finditer(r"\bif\s*\(", rest):
+        c_, e_ = if_condition(rest, im_.start(), "overwrite test")
+        try:
+            same_ = cond_is(c_, "overwrite || !pt.hasKey(key)", "overwrite test")
+        except TranslateError:
+            same_ = False
+        if same_ and re.match(r"\s*\{?\s*pt\s*\[\s*key\s*\]\s*=\s*value\s*;\s*\}?\s*keysInFile\s*\.\s*insert\s*\(\s*key\s*\)\s*;", rest[e_:]):
+            om = True
     A("/-- `if (overwrite || !pt.hasKey(key)) pt[key] = value;` followed unconditionally by `keysInFile.insert(key)` -/")
     A("def iniStoreThenRemember : Bool := %s" % ("true" if om else "false"))
     A("")
@@ -1494,7 +1735,18 @@ def translate(repo):
     A("def optFirstArg : Nat := %s" % fm.group(1))
     im = re.search(r"\bif\s*\(", ob)
     cond, _ = if_condition(ob, im.start(), "readOptions test")
-    cm = re.fullmatch(r"\(?argv\[i\]\[(\d+)\]==(" + LIT + r")\)?&&\(?argv\[i\]\[(\d+)\]!=(" + LIT + r"|0)\)?", re.sub(r"\s+", "", cond))
+    # the test as a Boolean function of its two atoms: `argv[i][a] == mark && !(argv[i][b] == terminator)`
+    ct = bool_parse(cond, "readOptions test")
+    cat = sorted(bool_atoms(ct))
+    cm = None
+    if len(cat) == 2:
+        am_ = [re.fullmatch(r"(" + LIT + r"|0)==argv\[i\]\[(\d+)\]|argv\[i\]\[(\d+)\]==(" + LIT + r"|0)", a_) for a_ in cat]
+        if all(am_):
+            pa = [((x.group(2) or x.group(3)), (x.group(1) or x.group(4))) for x in am_]
+            for u, v in ((0, 1), (1, 0)):
+                if bool_same(ct, ("and", ("atom", cat[u]), ("not", ("atom", cat[v])))) and pa[u][1] != "0" \
+                        and (int(pa[v][0]) <= int(pa[u][0]) or guards_hold(ct, [(cat[u], True, cat[v])])):
+                    cm = type("M", (), {"group": staticmethod(lambda k, g=(None, pa[u][0], pa[u][1], pa[v][0], pa[v][1]): g[k])})
     if not cm:
         raise TranslateError("readOptions: option test changed: %s" % cond.strip())
     A("/-- `if (%s)` -/" % re.sub(r"\s+", " ", cond.strip()))
@@ -1570,8 +1822,14 @@ def translate(repo):
     if not lm:
         raise TranslateError("readNamedOptions: argument loop not found")
     A("def namedFirstArg : Nat := %s" % lm.group(1))
-    mm = re.search(r"if\s*\(\s*\(?\s*i\s*<\s*required\s*\)?\s*(?:&&|and)\s*(?:!|not)\s*done\s*\[\s*i\s*\]\s*\)", nb) or \
-        re.search(r"if\s*\(\s*(?:!|not)\s*done\s*\[\s*i\s*\]\s*(?:&&|and)\s*\(?\s*i\s*<\s*required\s*\)?\s*\)", nb)
+    mm = False
+    for im_ in re.finditer(r"\bif\s*\(", nb):
+        c_, e_ = if_condition(nb, im_.start(), "missing test")
+        try:
+            if cond_is(c_, "i < required && !done[i]", "missing test"):
+                mm = True
+        except TranslateError:
+            pass
     A("/-- the final test: keyword `i` is missing iff `i < required && !done[i]` -/")
     A("def namedMissingIsBelowRequiredAndNotDone : Bool := %s" % ("true" if mm else "false"))
     A("")
@@ -1600,9 +1858,12 @@ def translate(repo):
     # fix the trailing comma/comment layout: rebuild without comments for robustness
     out[-1] = "  [" + ", ".join("(%s, %s)" % (lean_chars(w), v) for w, v in table) + "]"
     A("-- " + ", ".join("%s ↦ %s" % (show(w), v) for w, v in table))
-    lower = re.search(r"std::tolower\s*\(\s*c\s*,\s*std::locale::classic\s*\(\s*\)\s*\)", bb)
+    tfm = re.search(r"std::transform\s*\(\s*ret\.begin\(\)\s*,\s*ret\.end\(\)\s*,\s*ret\.begin\(\)\s*,\s*(\w+)\s*\(\s*\)\s*\)", bb)
+    fun = re.search(r"struct\s+" + tfm.group(1) + r"\s*\{", bb) if tfm else None
+    funb = block_at(bb, fun.end() - 1) if fun else ""
+    lower = re.search(r"char\s+operator\s*\(\s*\)\s*\(\s*char\s+(\w+)\s*\)\s*(?:const\s*)?\{\s*return\s+std::tolower\s*\(\s*\1\s*,\s*std::locale::classic\s*\(\s*\)\s*\)\s*;\s*\}", funb)
     A("/-- the text is lower-cased with `std::tolower(c, std::locale::classic())` -/")
-    A("def boolLowerClassic : Bool := %s" % ("true" if lower and re.search(r"std::transform\s*\(\s*ret\.begin\(\)\s*,\s*ret\.end\(\)\s*,\s*ret\.begin\(\)\s*,\s*ToLower\s*\(\s*\)\s*\)", bb) else "false"))
+    A("def boolLowerClassic : Bool := %s" % ("true" if lower and tfm else "false"))
     fb = re.search(r"return\s*\(?\s*Parser\s*<\s*(\w+)\s*>\s*::\s*parse\s*\(\s*ret\s*\)\s*!=\s*0\s*\)?\s*;", bb)
     if not fb:
         raise TranslateError("Parser<bool>: the numeric fallback `Parser<int>::parse(ret) != 0` was not found")
